@@ -27,7 +27,7 @@ OPS = {'add': operator.add, 'sub': operator.sub, 'mul': operator.mul, 'div': ope
 IOPS = {'add': operator.iadd, 'sub': operator.isub, 'mul': operator.imul, 'div': operator.itruediv}
 SCALAR_KINDS = ['int', 'float', 'complex', 'npf64', 'npi64', 'npc128', 'npf32', '0d']
 ARRAY_KINDS = ['arr_f', 'arr_i', 'arr_c']
-XSHAPES = [(), (1,), (3,), (2, 3), (1, 3), (2, 1), (2, 1, 2)]
+XSHAPES = [(), (1,), (3,), (2, 3), (1, 3), (2, 1), (2, 1, 2), (2, 2, 3), (3, 3)]
 
 
 def _bcast_partner(rng, xs, P, D, rel):
@@ -46,6 +46,8 @@ def _bcast_partner(rng, xs, P, D, rel):
         if rng.random() < 0.3 and len(s) > 1:
             s = s[1:]
         return tuple(s)
+    if rel == 'lower_rank':
+        return tuple(xs[1:]) if len(xs) > 1 else ()
     if rel == 'more_dims':
         return (int(rng.integers(2, 4)),) + tuple(xs)
     if rel == 'lead_P':
@@ -62,7 +64,7 @@ def cases(tier, seed):
     for op in OPS:
         for form in ('binary', 'reflected', 'inplace'):
             for kind in ['utpm'] + SCALAR_KINDS + ARRAY_KINDS:
-                rels = ['scalar'] if kind in SCALAR_KINDS else ['same', 'bcast', 'more_dims', 'lead_P', 'lead_D']
+                rels = ['scalar'] if kind in SCALAR_KINDS else ['same', 'bcast', 'lower_rank', 'more_dims', 'lead_P', 'lead_D']
                 for rel in rels:
                     if form == 'reflected' and kind == 'utpm':
                         continue
@@ -73,7 +75,9 @@ def cases(tier, seed):
                             out.append({'kind': 'arith', 'seed': s, 'params': {
                                 'op': op, 'form': form, 'other': kind, 'rel': rel, 'D': D, 'P': int(r.integers(1, 4)),
                                 'xshape': list(XSHAPES[int(r.integers(len(XSHAPES)))]),
-                                'data': ['ints', 'random', 'complex', 'random'][int(r.integers(4))]}})
+                                'data': ['ints', 'random', 'complex', 'random'][int(r.integers(4))],
+                                'odata': ['ints', 'random', 'complex', 'random'][int(r.integers(4))],
+                                'layout': ['C', 'C', 'F', 'T', 'strided', 'reversed'][int(r.integers(6))]}})
     for pk in ('pow_pyint', 'pow_npint', 'pow_float', 'pow_npfloat', 'pow_complex', 'rpow_float', 'rpow_int', 'rpow_complex', 'pow_utpm', 'pow_utpm_bcast'):
         for D in Ds:
             for rep in range(2 * reps):
@@ -191,10 +195,10 @@ def run_case(ctx, case):
     xd = _mk_utpm_data(rng, D, P, xs, data, x_div)
     if other_is_utpm:
         if form == 'inplace' and rel in ('more_dims', 'lead_P', 'lead_D'):
-            rel = 'same'
+            rel = 'lower_rank'
         os_ = _bcast_partner(rng, xs, P, D, rel)
-        od = _mk_utpm_data(rng, D, P, os_, data if rng.random() < 0.7 else 'random', o_div)
-        other = UTPM(od.copy())
+        od = _mk_utpm_data(rng, D, P, os_, p.get('odata', data), o_div)
+        other = UTPM(gen.relayout(od, p.get('layout', 'C')))
     elif kind in SCALAR_KINDS:
         os_ = ()
         other = _mk_other(rng, kind, (), data, o_div)
@@ -211,7 +215,7 @@ def run_case(ctx, case):
         # numpy itself rejects in-place broadcasting into a smaller left operand
         os_ = xs if not (kind in SCALAR_KINDS) else ()
         if other_is_utpm:
-            od = _mk_utpm_data(rng, D, P, os_, data, o_div); other = UTPM(od.copy())
+            od = _mk_utpm_data(rng, D, P, os_, p.get('odata', data), o_div); other = UTPM(gen.relayout(od, p.get('layout', 'C')))
         elif kind not in SCALAR_KINDS:
             other = _mk_other(rng, kind, os_, data, o_div); od = other.copy()
         out_shape = xs
@@ -219,7 +223,7 @@ def run_case(ctx, case):
     other_cplx = np.iscomplexobj(od)
     if form == 'inplace' and other_cplx and not np.iscomplexobj(xd):
         ctx.skip('inplace-real-op-complex (exempt by the statement)'); return
-    x = UTPM(xd.copy())
+    x = UTPM(gen.relayout(xd, p.get('layout', 'C')))
     label = '%s:%s' % (op, form)
     mech = '%s:%s:%s:%s' % (op, form, kind, rel)
     try:
@@ -271,7 +275,7 @@ def run_case(ctx, case):
                                'element': idx, 'direction': pp, 'got': [complex(v) for v in got][:4], 'want': [complex(v) for v in ref][:4],
                                'err_over_majorant': e})
                 return
-    ctx.ok(label, (op, form, kind, rel, D, P, data), noise=worst,
+    ctx.ok(label, (op, form, kind, rel, D, P, data, p.get('odata') if other_is_utpm else None, p.get('layout')), noise=worst,
            sample={'op': op, 'form': form, 'other': kind, 'rel': rel, 'D': D, 'P': P, 'xshape': xs, 'oshape': os_, 'data': data,
                    'max_err_over_majorant': worst} if rng.random() < 0.01 else None)
 
